@@ -110,6 +110,58 @@ func HLoad() {
 	}
 }
 
+// HLoadTwice: the hash is checked on every load: a link that loaded cleanly once is checked
+// again when the storage later returns other bytes for it (on the same link system or a copy).
+func HLoadTwice() {
+	lsys.Register()
+	codec := []uint64{0x71, 0x0129, 0x55}[nd.Choose("codec", 3)]
+	good := map[uint64][]byte{0x71: {0x82, 0x01, 0x02}, 0x0129: []byte("[1,2]"), 0x55: {1, 2, 3}}[codec]
+	x, s := lsys.Fold(good)
+	lnk := lsys.V1Link(codec, lsys.FoldCode, []byte{x, s})
+	// what the storage returns later: the block with one byte replaced by a free byte
+	later := append([]byte{}, good...)
+	later[nd.Choose("pos", len(good))] = nd.Byte("later")
+	cur := good
+	ls := cidlink.DefaultLinkSystem()
+	ls.StorageReadOpener = func(linking.LinkContext, datamodel.Link) (io.Reader, error) { return bytes.NewReader(cur), nil }
+	load := func(l *linking.LinkSystem, form int) (datamodel.Node, []byte, error) {
+		switch form {
+		case 0:
+			n, err := l.Load(linking.LinkContext{}, lnk, basicnode.Prototype.Any)
+			return n, nil, err
+		case 1:
+			b, err := l.LoadRaw(linking.LinkContext{}, lnk)
+			return nil, b, err
+		case 2:
+			return l.LoadPlusRaw(linking.LinkContext{}, lnk, basicnode.Prototype.Any)
+		}
+		nb := basicnode.Prototype.Any.NewBuilder()
+		err := l.Fill(linking.LinkContext{}, lnk, nb)
+		return nil, nil, err
+	}
+	_, _, err := load(&ls, nd.Choose("form1", 4))
+	nd.Assert(err == nil, "the intact block loads")
+	cur = later
+	second := &ls
+	if nd.Choose("copy", 2) == 1 {
+		cp := ls
+		second = &cp
+	}
+	lx, lsum := lsys.Fold(later)
+	hashOK := nd.And(lx == x, lsum == s)
+	n, rawb, err := load(second, nd.Choose("form2", 4))
+	if err == nil {
+		nd.Reach("loaded")
+		nd.Assert(hashOK, "a later load succeeds only if the bytes the storage returns then hash to the link")
+	} else {
+		nd.Reach("error")
+		nd.Assert(n == nil, "no node is returned with an error")
+		_, isMismatch := err.(linking.ErrHashMismatch)
+		nd.Assert(nd.Implies(!hashOK, isMismatch), "bytes that do not hash to the link are a hash mismatch on every load")
+		_ = rawb
+	}
+}
+
 // HLoadCorrupt: structured corrupt blocks that drive the decoders into their other error paths
 // (allocation budget, depth limit, huge declared lengths, truncation inside a string or a
 // number, trailing bytes) with free bytes at the deciding positions, against a link whose digest
